@@ -62,6 +62,46 @@ Theorem C08_fresh_nonvacuous :
 Proof. exact fresh_nonvacuous. Qed.
 Print Assumptions C08_fresh_nonvacuous.
 
+(* ---- "every declared schema name is present in the result" ----
+   What the TRACKER guarantees for build_schemas' top-level (re-)parse of a name without tracker state, started at
+   rest: never RETURN_EXISTING / RETURN_PLACEHOLDER / a cycle placeholder; either the body runs or the tracker
+   itself registers the depth placeholder. *)
+Theorem C08_top_enter_action : forall n c c1 a,
+  stack c = [] -> state_of c n = NotStarted -> enter (Some n) c = (c1, a) ->
+  a = AContinue \/ (a = ACreate /\ registered c1 n = true).
+Proof. exact top_enter_action. Qed.
+Print Assumptions C08_top_enter_action.
+
+(* Presence therefore reduces to ONE explicit hypothesis about the parser body, [contract]: a top-level frame that
+   is told to CONTINUE has registered its name (raw or sanitised, [alt]) when it reaches the `finally`; plus: the body
+   never deletes a registration.  Under it, every name visited by the loop of build_schemas (first visits and
+   re-parses of depth placeholders, any number of passes) is present at the end, so the post-condition
+   RuntimeError "was not parsed" cannot fire.  The contract is NOT proved here (the body is not modelled in Cycle.v);
+   it is evaluated on every implementation trace by the correspondence driver (guard bit 5) and fails exactly for
+   F08e.  [visited] covers all declared names: checked per document by the oracle (declared name present). *)
+Theorem C08_all_present : forall alt l c,
+  rest c -> contract alt c l = true -> forallb (fun x => no_unreg (top_call x)) l = true ->
+  forall n, In n (visited c l) -> present alt (run_tops c l) n = true.
+Proof. exact all_present_tops. Qed.
+Print Assumptions C08_all_present.
+
+Theorem C08_contract_nonvacuous :
+  contract (fun n => n) (init 1) tops_fresh = true
+  /\ visited (init 1) tops_fresh = [[83;48]; [83;49]; [83;50]; [83;51]]
+  /\ forallb (fun x => no_unreg (top_call x)) tops_fresh = true.
+Proof. exact contract_nonvacuous. Qed.
+Print Assumptions C08_contract_nonvacuous.
+
+(* F08e: a null schema node breaks the contract (implementation's trace of corpus/C08/F08e.json) *)
+Theorem C08_refuted_F08e :
+  let c := run_tops (init default_max_depth) tops_F08e in
+  contract (fun n => n) (init default_max_depth) tops_F08e = false
+  /\ visited (init default_max_depth) tops_F08e = [[88]; [89]; [88]]
+  /\ present (fun n => n) c [88] = false /\ present (fun n => n) c [89] = true
+  /\ rest c /\ guard_F08b default_max_depth tops_F08e = true.
+Proof. exact refuted_F08e. Qed.
+Print Assumptions C08_refuted_F08e.
+
 (* Counted depth: in a tree of NAMED frames started within the limit, recursion_depth never exceeds
    max_depth + 1 (the extra one is the frame that is answered with the depth placeholder). *)
 Theorem C08_depth_named : forall t, all_named t = true ->
@@ -142,3 +182,34 @@ Print Assumptions C08_guard_nonvacuous.
 Theorem C08_trace_is_run : forall md tops, fst (run_tops_acc (init md) [] tops) = run_tops (init md) tops.
 Proof. intros md tops. apply trace_final. Qed.
 Print Assumptions C08_trace_is_run.
+
+(* ---- termination of the reduced, fuel-based parser model (w02's Model/Parser.v, imported by Model/CycleParser.v);
+   fuel bounds the nesting of _parse_schema frames, running out of it stands for exhausting the interpreter stack ---- *)
+From PG Require Model.Parser Model.CycleParser Proofs.CycleParser.
+Module CP := PG.Model.CycleParser.
+Module PP := PG.Model.Parser.
+
+(* stage 1: acyclic core documents whose deepest chain fits the limit (w02's fidelity fragment) *)
+Theorem C08_parse_terminates_acyclic : forall md S rk,
+  PP.core_spec S = true -> PP.ranked_b rk S = true -> PP.depth_ok rk S md = true ->
+  PP.oof (PP.parse_doc md S) = false /\ PP.all_present S (PP.parse_doc md S) = true.
+Proof. exact Proofs.CycleParser.parse_terminates_acyclic. Qed.
+Print Assumptions C08_parse_terminates_acyclic.
+
+(* stage 2, BOUNDED SCOPE: every reference graph (all cycles included) over <= 3 named object schemas, limits
+   0..6, 20, 150: at most 8 nested frames, no fuel exhaustion, every declared name registered.
+   The statement for arbitrary reference graphs is NOT proved; it is kept, with the argument and what is missing,
+   at the end of Proofs/CycleParser.v. *)
+Theorem C08_parse_terminates_small_scope : forall k m md,
+  (1 <= k <= 3)%nat -> In m (CP.masks k) -> In md Proofs.CycleParser.limits ->
+  (CP.needed md (CP.gspec k m) <= 8)%nat
+  /\ PP.oof (PP.parse_doc md (CP.gspec k m)) = false
+  /\ PP.all_present (CP.gspec k m) (PP.parse_doc md (CP.gspec k m)) = true.
+Proof. exact Proofs.CycleParser.parse_terminates_small_scope. Qed.
+Print Assumptions C08_parse_terminates_small_scope.
+
+(* named frames alone can nest deeper than limit + 1 (fall-through, F08b): 7 frames at limit 4 *)
+Theorem C08_nesting_exceeds_limit :
+  CP.needed 4 (CP.gspec 3 484) = 7%nat /\ CP.needed 150 (CP.gspec 3 484) = 8%nat.
+Proof. exact Proofs.CycleParser.nesting_exceeds_limit. Qed.
+Print Assumptions C08_nesting_exceeds_limit.
